@@ -34,6 +34,10 @@ def jobs(tier):
     out = []
     for P in (16384, 32768, 65536) + (() if q else (131072,)):
         out.append(("hashers.P%d" % P, "job_hashers", dict(P=P, K=(5 if q else 9) if P < 131072 else 4)))
+    for shp in cr.scheme_shapes(["flat2", "nested3"], tier):
+        for pair in (("2a", "2c"), ("3a", "3c")):
+            out.append(("%s.%s.P16384" % ("v2" if pair[0] == "2a" else "hybrid", shp), "job_pair",
+                        dict(pair=pair, shape=shp, P=16384, K=1, order="reversed")))
     for pair in (("2a", "2c"), ("3a", "3c")):
         tag = "v2" if pair[0] == "2a" else "hybrid"
         out.append(("%s.seq.P16384-then-P32768" % tag, "job_pair_seq", dict(pair=pair, P1=16384, P2=32768)))
